@@ -179,3 +179,18 @@ Definition total_order_on (vcmp : str -> str -> comparison) (l : list str) : Pro
   (forall x y, In x l -> In y l -> vcmp x y = Eq -> x = y) /\
   (forall x y, In x l -> In y l -> vcmp y x = CompOpp (vcmp x y)) /\
   (forall x y z, In x l -> In y l -> In z l -> vcmp x y <> Gt -> vcmp y z <> Gt -> vcmp x z <> Gt).
+
+(* a decidable form of total_order_on, for concrete name lists *)
+Definition cmp_eqb (a b : comparison) : bool :=
+  match a, b with Eq, Eq | Lt, Lt | Gt, Gt => true | _, _ => false end.
+Definition total_orderb (vcmp : str -> str -> comparison) (l : list str) : bool :=
+  forallb (fun x => cmp_eqb (vcmp x x) Eq) l &&
+  forallb (fun x => forallb (fun y =>
+    (match vcmp x y with Eq => str_eqb x y | _ => true end) &&
+    cmp_eqb (vcmp y x) (CompOpp (vcmp x y))) l) l &&
+  forallb (fun x => forallb (fun y => forallb (fun z =>
+    cmp_eqb (vcmp x y) Gt || cmp_eqb (vcmp y z) Gt || negb (cmp_eqb (vcmp x z) Gt)) l) l) l.
+
+(* entries that never produce a product that has not been chosen before *)
+Definition is_inert (e : entry) : bool :=
+  match e with EKeep | ECommandLine | EPath | EType _ | EWarn _ => true | _ => false end.
